@@ -294,11 +294,12 @@ Proof.
   - apply Nat.ltb_ge in E. repeat split; try lia. exact H.
 Qed.
 
-Theorem extract_range (oi oj : option nat) :
+Theorem extract_range_slice (oi oj : option nat) :
   (match oi, oj with Some i, Some j => i <= j | _, _ => True end) ->
   exists data,
     extract file linelen start (QRange (option_map Z.of_nat oi) (option_map Z.of_nat oj)) = Ok (hl ++ data)
-    /\ filter nonnl data = slice oi oj.
+    /\ filter nonnl data = slice oi oj
+    /\ exists a n, data = firstn n (skipn a W).
 Proof.
   intros Hij. unfold extract. rewrite readline_start. fold offset. cbv zeta.
   rewrite ends_crlf_hl, bad_false, recend_W. fold cmp.
@@ -319,11 +320,22 @@ Proof.
   - assert ((Z.of_nat j <? 0)%Z = false) as -> by (apply Z.ltb_ge; lia). rewrite Nat2Z.id.
     assert (Hi0j: i0 <= j) by (unfold i0; destruct oi; cbn [opt_or]; lia).
     assert (Haj: a <= cmp j) by (pose proof (cmp_mono i0 j Hi0j); lia).
-    exists (firstn (cmp j - a) (skipn a W)). split.
+    exists (firstn (cmp j - a) (skipn a W)). split; [|split].
     + rewrite <- (read_closed a (cmp j) Ha1 Haj). reflexivity.
     + unfold slice. fold i0. apply fin_closed; assumption.
-  - exists (skipn a W). split.
+    + exists a, (cmp j - a). reflexivity.
+  - exists (skipn a W). split; [|split].
     + rewrite mfind_open by exact Ha1. rewrite (read_open a Ha1). reflexivity.
     + unfold slice. fold i0. apply fin_open. exact Ha3.
+    + exists a, (length (skipn a W)). symmetry. apply firstn_all.
+Qed.
+
+Theorem extract_range (oi oj : option nat) :
+  (match oi, oj with Some i, Some j => i <= j | _, _ => True end) ->
+  exists data,
+    extract file linelen start (QRange (option_map Z.of_nat oi) (option_map Z.of_nat oj)) = Ok (hl ++ data)
+    /\ filter nonnl data = slice oi oj.
+Proof.
+  intros H. destruct (extract_range_slice oi oj H) as [data [E [F _]]]. exists data. split; assumption.
 Qed.
 End Around.
